@@ -247,6 +247,105 @@ fn parsed(sink: &CountingSink, prefix: &str, rep: &Report) -> Option<Vec<AggOut>
 }
 
 // ------------------------------------------------------------------------------------------
+// inputs whose distribution field is itself a distribution with repeated observations
+
+mod nested {
+    use super::*;
+    use metrique_aggregation::histogram::ExponentialAggregationStrategy;
+
+    #[aggregate]
+    #[metrics]
+    pub struct Shard {
+        #[aggregate(key)]
+        table: u8,
+        #[aggregate(strategy = Sum)]
+        rows: u64,
+        #[aggregate(strategy = Histogram<u64, SortAndMerge>)]
+        exact: Histogram<u64, SortAndMerge>,
+        #[aggregate(strategy = Histogram<u64, ExponentialAggregationStrategy>)]
+        bucketed: Histogram<u64, ExponentialAggregationStrategy>,
+    }
+
+    fn observations(a: &Appended, name: &str) -> Option<Vec<(u64, u64)>> {
+        a.log.iter().find_map(|o| match o {
+            Op::Value { name: n, val: Val::Metric { obs, .. } } if n == name => Some(
+                obs.iter()
+                    .map(|o| match *o {
+                        Obs::R { total, occ } => ((f64::from_bits(total) / occ.max(1) as f64).round() as u64, occ),
+                        Obs::U(u) => (u, 1),
+                        Obs::F(b) => (f64::from_bits(b).round() as u64, 1),
+                        Obs::Other => (u64::MAX, 0),
+                    })
+                    .collect(),
+            ),
+            _ => None,
+        })
+    }
+
+    pub fn history(rng: &mut Rng, rep: &Report) -> bool {
+        let out = CountingSink::new();
+        let mut agg: KeyedAggregator<Shard, CountingSink> = KeyedAggregator::new(out.clone());
+        for epoch in 0..1 + rng.below(3) {
+            // table -> value -> occurrences; values below 32 sit in width-1 buckets of the exponential layout
+            let mut want: BTreeMap<u8, BTreeMap<u64, u64>> = BTreeMap::new();
+            let mut rows: BTreeMap<u8, u64> = BTreeMap::new();
+            for _ in 0..rng.below(if is_miri() { 5 } else { 40 }) {
+                let table = rng.below(3) as u8;
+                let (mut exact, mut bucketed) = (Histogram::<u64, SortAndMerge>::default(), Histogram::<u64, ExponentialAggregationStrategy>::default());
+                let n = rng.below(12);
+                for _ in 0..n {
+                    // few distinct values: repeats within one input and across inputs
+                    let v = rng.below(6) * 5 + rng.below(2);
+                    exact.add_value(v);
+                    bucketed.add_value(v);
+                    *want.entry(table).or_default().entry(v).or_default() += 1;
+                }
+                *rows.entry(table).or_default() += n;
+                want.entry(table).or_default();
+                agg.merge(Shard { table, rows: n, exact, bucketed }.close());
+            }
+            agg.flush();
+            let apps = out.take();
+            if apps.len() != want.len() {
+                rep.violation("key-without-aggregate", json!({"ctx": "nested distributions", "aggregates": apps.len(), "keys": want.len(), "epoch": epoch}));
+                return false;
+            }
+            for a in &apps {
+                let table = a.u64_field("table").unwrap_or(99) as u8;
+                let expect: Vec<(u64, u64)> = want.get(&table).map(|m| m.iter().map(|(v, n)| (*v, *n)).collect()).unwrap_or_default();
+                for field in ["exact", "bucketed"] {
+                    let mut got = observations(a, field).unwrap_or_default();
+                    got.sort_unstable();
+                    // equal values may be reported as several runs: add them up
+                    let mut merged: Vec<(u64, u64)> = vec![];
+                    for (v, n) in got {
+                        match merged.last_mut() {
+                            Some(l) if l.0 == v => l.1 += n,
+                            _ => merged.push((v, n)),
+                        }
+                    }
+                    if merged != expect {
+                        rep.violation(
+                            "distribution-does-not-contain-exactly-the-inputs",
+                            json!({"ctx": "inputs whose distribution field is a Histogram with repeated observations", "field": field, "table": table, "epoch": epoch,
+                                   "expected(value,occurrences)": expect, "got(value,occurrences)": merged}),
+                        );
+                        return false;
+                    }
+                }
+                if a.u64_field("rows") != Some(rows.get(&table).copied().unwrap_or(0)) {
+                    rep.violation("sum-field-wrong", json!({"ctx": "nested distributions", "table": table, "got": a.u64_field("rows"), "expected": rows.get(&table)}));
+                    return false;
+                }
+            }
+            rep.count("nested_distribution_aggregates_checked", apps.len() as u64);
+            rep.count("aggregates_checked", apps.len() as u64);
+        }
+        true
+    }
+}
+
+// ------------------------------------------------------------------------------------------
 // a hand-written key whose Hash is (legitimately) coarser than its Eq: hash-equal distinct keys
 
 mod coarse {
@@ -719,7 +818,7 @@ fn main() {
          with merge-on-drop guards dropped in random order, WorkerSink with 1-8 producer threads, flush() barriers in between and drop of the last handle; oracle: one aggregate \
          per key and flush, every input id in exactly one aggregate (its key's), sum = sum of exactly those inputs, keep-last among them (= the last one when the order is known), \
          flush barrier (requests from a controller thread and, concurrently, from the producers themselves, with a worker that sometimes lags), worker inner dropped after the last handle; \
-         plus a hand-written Key whose Hash is coarser than its Eq (hash-equal distinct keys must stay apart). distinct = distinct (sink kind, sizes, key multiplicities)",
+         plus a hand-written Key whose Hash is coarser than its Eq (hash-equal distinct keys must stay apart); inputs whose distribution fields are themselves histograms with repeated observations (occurrences must add up exactly). distinct = distinct (sink kind, sizes, key multiplicities)",
     );
     let tiny = is_miri() || args.get_u64("tiny", 0) == 1;
     let budget = Duration::from_secs(args.get_u64("secs", args.by_tier(10, 120)));
@@ -737,10 +836,11 @@ fn main() {
                     rounds += 1;
                     rep.eval();
                     let before = next_id;
-                    let kind = rounds % 5;
+                    let kind = rounds % 6;
                     let ok = match kind {
                         0 => direct_history(&mut rng, &mut next_id, rep),
                         4 => coarse::history(&mut rng, &mut next_id, rep),
+                        5 => nested::history(&mut rng, rep),
                         1 => tee_history(&mut rng, &mut next_id, rep),
                         2 => embedded_history(&mut rng, &mut next_id, rep),
                         _ => worker_history(&mut rng, &mut next_id, rep),
@@ -750,10 +850,10 @@ fn main() {
                     }
                     rep.distinct(Fnv::new().u64(kind).u64(next_id - before).u64(rng.next_u64() % 64).finish());
                     if rep.want_sample() && rounds % 50 == 3 {
-                        let kind_name = ["KeyedAggregator", "TeeSink", "embedded/MutexSink", "WorkerSink", "KeyedAggregator with hash-colliding keys"][kind as usize];
+                        let kind_name = ["KeyedAggregator", "TeeSink", "embedded/MutexSink", "WorkerSink", "KeyedAggregator with hash-colliding keys", "KeyedAggregator over nested distributions"][kind as usize];
                         rep.sample(|| json!({"kind": kind_name, "inputs": next_id - before}));
                     }
-                    if tiny && rounds >= 5 {
+                    if tiny && rounds >= 6 {
                         break;
                     }
                 }
